@@ -1223,7 +1223,8 @@ impl Job for Sweep {
         }
         let (fam, fe, text) = self.case(idx);
         Some(Violation {
-            sig: format!("{kind}@{}", class_name(self.fes[fe].class)),
+            // the input is part of the signature: a hang has no call site to name its cause by
+            sig: format!("{kind}@{}:{}:{}", class_name(self.fes[fe].class), self.fes[fe].name, text.chars().take(32).flat_map(|c| c.escape_default()).collect::<String>()),
             case: self.case_json(fam, fe, &text),
             detail: json!({"kind": kind, "note": "case exceeded the hang budget or killed the worker process"}),
         })
@@ -1413,7 +1414,7 @@ impl Job for Ladder {
     fn on_hang(&self, idx: u64, kind: &str) -> Option<Violation> {
         let (fe, unit) = &self.cases[idx as usize];
         Some(Violation {
-            sig: format!("{kind}@{}:pumped", class_name(self.fes[*fe].class)),
+            sig: format!("{kind}@{}:pumped:{}", class_name(self.fes[*fe].class), unit.chars().flat_map(|c| c.escape_default()).collect::<String>()),
             case: json!({"engine":"E1","front_end": self.fes[*fe].name, "unit": unit, "text": format!("{unit} repeated up to 2^{} times", self.tier.pick(10, 13))}),
             detail: json!({"kind": kind, "note": "the ladder for this unit exceeded the time budget or killed the worker (allocation failure / stack overflow)"}),
         })
